@@ -357,6 +357,31 @@ fn readback_oracle(c: &ReadBack) -> Verdict {
     Verdict::Pass(class, class != "plain")
 }
 
+// ---------------------------------------------------------------- from_tz_offset(sign, hours, minutes)
+#[derive(Clone, Debug, Serialize, Deserialize)]
+pub struct TzOffset {
+    pub sign: i8,
+    pub h: i64,
+    pub m: i64,
+}
+
+fn tz_strategy() -> BS<TzOffset> {
+    let v = || prop_oneof![3 => -100i64..=100, 2 => i64_any(), 1 => (-3i128..=3, small_delta(3)).prop_map(|(k, d)| ((k * (i64::MAX as i128) / 60) + d).clamp(i64::MIN as i128, i64::MAX as i128) as i64)];
+    (any::<i8>(), v(), v()).prop_map(|(sign, h, m)| TzOffset { sign, h, m }).boxed()
+}
+
+fn tz_oracle(c: &TzOffset) -> Verdict {
+    // hours and minutes are integer counts of a unit (each clamped), their sum saturates, a negative sign negates
+    let sum = clamp(clamp(c.h as i128 * NS_H) + clamp(c.m as i128 * NS_MIN));
+    let want = if c.sign < 0 { clamp(-sum) } else { sum };
+    let d = lib!(Duration::from_tz_offset(c.sign, c.h, c.m));
+    if let Err(m) = check_read_back(d, want, &format!("from_tz_offset({}, {}, {})", c.sign, c.h, c.m)) {
+        return Verdict::Fail(m);
+    }
+    let class = if want == DMAX || want == DMIN { "clamped" } else if c.sign < 0 { "negative-sign" } else if c.h.unsigned_abs() > 100 || c.m.unsigned_abs() > 100 { "large" } else { "clock-like" };
+    Verdict::Pass(class, class != "clock-like")
+}
+
 pub fn subs() -> Vec<Box<dyn DynSub>> {
     vec![
         sub(Sub { name: "c02.from_total", source: Source::Gen(from_total_strategy, 2_000_000, 20_000_000), oracle: from_total_oracle, known: no_known, hang_is_violation: false }),
@@ -365,6 +390,7 @@ pub fn subs() -> Vec<Box<dyn DynSub>> {
         sub(Sub { name: "c02.compose", source: Source::Gen(compose_strategy, 1_600_000, 10_000_000), oracle: compose_oracle, known: no_known, hang_is_violation: false }),
         sub(Sub { name: "c02.std", source: Source::Gen(std_strategy, 1_600_000, 10_000_000), oracle: std_oracle, known: no_known, hang_is_violation: false }),
         sub(Sub { name: "c02.trunc", source: Source::Gen(trunc_strategy, 3_200_000, 30_000_000), oracle: trunc_oracle, known: no_known, hang_is_violation: false }),
+        sub(Sub { name: "c02.tz_offset", source: Source::Gen(tz_strategy, 800_000, 8_000_000), oracle: tz_oracle, known: no_known, hang_is_violation: false }),
         sub(Sub { name: "c02.readback", source: Source::Gen(readback_strategy, 2_000_000, 20_000_000), oracle: readback_oracle, known: readback_known, hang_is_violation: false }),
         crate::props::fuzzsub::fc02(),
     ]
